@@ -13,7 +13,9 @@ def cases(tier):
     for (n, cap) in ([(1, 512)] if tier == 'quick' else [(1, 512), (2, 1024), (1, 2048)]):
         out.append({'cfg': {'scenario': 'gens', 'n': n, 'cap': cap, 'x': 1}, 'name': 'n%d cap%d x1' % (n, cap)})
     # construction history: smaller / larger / other parameter sets built first in the same process
-    for (n, cap, x, pre) in [(64, 2, 2, [[16, 1, 1]]), (8, 8, 6, [[2, 2, 1], [8, 1, 3], [64, 32, 6]]), (64, 1, 1, [[1, 1, 1], [2, 4, 2], [32, 2, 1]]), (4, 4, 3, [[64, 1, 6]])]:
+    for (n, cap, x, pre) in [(64, 2, 2, [[16, 1, 1]]), (8, 8, 6, [[2, 2, 1], [8, 1, 3], [64, 32, 6]]), (64, 1, 1, [[1, 1, 1], [2, 4, 2], [32, 2, 1]]), (4, 4, 3, [[64, 1, 6]]),
+                             # the SAME bit length built just before with fewer / more parties (a set that is extended or cut down instead of derived afresh)
+                             (64, 2, 1, [[64, 1, 1]]), (8, 4, 2, [[8, 2, 2]]), (8, 8, 1, [[8, 1, 1], [8, 2, 1], [8, 4, 1]]), (16, 2, 1, [[16, 4, 1]]), (32, 2, 3, [[64, 4, 3]]), (4, 16, 1, [[4, 2, 1], [2, 16, 1]])]:
         out.append({'cfg': {'scenario': 'gens', 'n': n, 'cap': cap, 'x': x, 'prebuild': pre}, 'name': 'n%d cap%d x%d after building %s' % (n, cap, x, pre)})
     for (n, cap) in pairs:
         for x in ((1, 6) if tier == 'quick' else range(1, 7)):
